@@ -19,7 +19,9 @@ func NewFilter() *Filter {
 type Filter struct{}
 
 // ApplyFilter runs jq expression provided in jqFilter with jsonData as input.
-func (f *Filter) ApplyFilter(jqFilter string, data map[string]any) (map[string]any, error) {
+// A single output is returned as is: an object, an array, a string, a number, a boolean or null.
+// Several outputs are merged into one object (outputs that are not objects are ignored).
+func (f *Filter) ApplyFilter(jqFilter string, data map[string]any) (any, error) {
 	query, err := gojq.Parse(jqFilter)
 	if err != nil {
 		return nil, err
@@ -28,7 +30,7 @@ func (f *Filter) ApplyFilter(jqFilter string, data map[string]any) (map[string]a
 	// gojs will normalize numbers in the input data, we should create new map for prevent changes in input data
 	workData := deepCopy(data)
 	iter := query.Run(workData)
-	result := make(map[string]any)
+	outputs := make([]any, 0, 1)
 	for {
 		v, ok := iter.Next()
 		if !ok {
@@ -41,6 +43,15 @@ func (f *Filter) ApplyFilter(jqFilter string, data map[string]any) (map[string]a
 			}
 			return nil, err
 		}
+		outputs = append(outputs, v)
+	}
+
+	if len(outputs) == 1 {
+		return outputs[0], nil
+	}
+
+	result := make(map[string]any)
+	for _, v := range outputs {
 		if resultMap, ok := v.(map[string]any); ok {
 			maps.Copy(result, resultMap)
 		}
